@@ -31,6 +31,19 @@ def items():
     out["classes"] = lambda: (lambda t: (t.add_class("c d"), t.remove_class("c"), t.add_style("a:b;"), t.render())[-1])(div(class_="a b c"))
     return out
 
+page = tags.html(tags.body("shared page"))
+
+
+def _more(out):
+    out["scripts-attrs"] = lambda: div(dep("sa", "1.0", script={"src": "s.js", "integrity": "sha-x", "crossorigin": "anonymous", "defer": True, "type": "module", "nomodule": False})).render()
+    out["page-lang"] = lambda: HTMLDocument(page, lang="en").render()
+    out["page-plain"] = lambda: HTMLDocument(page).render()
+    out["text-quotes"] = lambda: div('say "hi" it\'s', title='t"q').render()
+    return out
+
+
+_items0 = items
+items = lambda: _more(_items0())
 its = items()
 res = {}
 for k in order:
@@ -45,7 +58,7 @@ def run(R, job):
     rnd = random.Random(job.get("seed", 0))
     n = job.get("n", 150)
     nproc = 6 if n <= 200 else 24
-    keys = ["deps-many", "doc", "attrs", "head-names", "textdoc", "textdoc2", "jsx", "list", "classes"]
+    keys = ["deps-many", "doc", "attrs", "head-names", "textdoc", "textdoc2", "jsx", "list", "classes", "scripts-attrs", "page-lang", "page-plain", "text-quotes"]
     repo = os.environ.get("HV_REPO") or "/repo"
     fails, checked = [], 0
     ref = None
